@@ -5,7 +5,7 @@
    every explored output. *)
 From Coq Require Import Arith ZArith List Bool Lia Permutation.
 Import ListNotations.
-From SCK Require Import Argsort StrictB DA FlowModel Mwcs MwcsProof MwcsOpt GS2 GSInst GSFinal Irving IrvProof StableCheck.
+From SCK Require Import Argsort StrictB DA FlowModel Mwcs MwcsProof MwcsOpt GS2 GSInst GSFinal Irving IrvProof IrvRot StableCheck.
 
 (* (a) the first stage is a stable matching of the instance and it is man-optimal *)
 Theorem C03_partial_start_is_man_optimal : forall P1 P2 V1 V2 ff t,
@@ -29,6 +29,27 @@ Theorem C03_partial_closed_subset_optimal : forall P1 P2 V1 V2 ff t,
 Proof. exact irving_closed_subset_optimal. Qed.
 Print Assumptions C03_partial_closed_subset_optimal.
 
+(* (b),(c) eliminating rotations, as coded (pairs replaced one by one in the list), is the simultaneous shift of every
+   man of the rotation to the next woman; for ANY sequence of rotations each exposed in the matching it is
+   eliminated from, the result has the same men, the same women each exactly once (a perfect matching again) and its
+   total value is the old value plus the sum of the rotation weights computed by rot_weight *)
+Theorem C03_partial_elimination_adds_rotation_weights : forall V1 V2 rts M,
+  NoDup (map fst M) -> NoDup (map snd M) -> exposed_all M rts ->
+  exists M', eliminate M rts = Some M' /\ map fst M' = map fst M /\ Permutation (map snd M') (map snd M) /\
+             pvalue V1 V2 M' = (pvalue V1 V2 M + zsum (rot_weight V1 V2) rts)%Z.
+Proof. exact eliminate_spec. Qed.
+Print Assumptions C03_partial_elimination_adds_rotation_weights.
+(* ... and for a run of the pipeline whose per-case hypothesis check passed (perfectb, exposed_allb: evaluated by
+   the kernel on every explored case), the final matching is perfect and its value is the man-optimal value plus
+   the weight of the chosen closed set, which (e) shows to be the maximum over all closed sets *)
+Theorem C03_partial_final_value : forall P1 P2 V1 V2 ff t,
+  irving P1 P2 V1 V2 ff = Some t ->
+  perfectb (t_M0 t) = true -> exposed_allb (t_M0 t) (map (fun i => nth i (t_rots t) []) (t_S t)) = true ->
+  exists M', t_out t = Some M' /\ map fst M' = map fst (t_M0 t) /\ Permutation (map snd M') (map snd (t_M0 t)) /\
+             pvalue V1 V2 M' = (pvalue V1 V2 (t_M0 t) + zsum (fun i => nth i (t_ws t) 0%Z) (t_S t))%Z.
+Proof. exact irving_elimination_sound. Qed.
+Print Assumptions C03_partial_final_value.
+
 (* (f) the checker evaluated on explored outputs decides exactly the property's statement: sigma (the list of
    wives) is a perfect matching, has no blocking pair w.r.t. the ordinal profiles, and no stable matching of
    the instance has a larger total value *)
@@ -51,6 +72,7 @@ Example C03_nonvacuous :
   let V1 := [[0; 0; 0]; [0; 0; 0]; [0; 0; 0]]%Z in let V2 := [[0; 2; 1]; [1; 0; 2]; [2; 1; 0]]%Z in
   match irving P1 P2 V1 V2 9 with
   | Some t => length (t_rots t) = 2 /\ t_S t = [0; 1] /\ t_out t = Some [(0, 2); (1, 0); (2, 1)] /\
-              chk_opt (P1, P2, V1, V2, [(0, 2); (1, 0); (2, 1)]) = true
+              chk_opt (P1, P2, V1, V2, [(0, 2); (1, 0); (2, 1)]) = true /\
+              perfectb (t_M0 t) = true /\ exposed_allb (t_M0 t) (map (fun i => nth i (t_rots t) []) (t_S t)) = true
   | None => False end.
 Proof. vm_compute. repeat split; reflexivity. Qed.
